@@ -35,9 +35,31 @@ def build_frame(case):
     src = case["source"]
     if src == "gen":
         if case["format"] == "PDB":
-            return g4.pdb_frame(case["rows"])
+            df = g4.pdb_frame(case["rows"])
+            ed = case.get("edit")
+            if ed:
+                # a PDB-derived table edited afterwards (what unifier does when it copies identifiers of another file)
+                with warnings.catch_warnings():
+                    warnings.simplefilter("ignore")
+                    fmt = df.attrs.get("format")
+                    df = df.copy()
+                    if ed["what"] == "chain":
+                        df["chainID"] = [ed["value"] if c == ed["old"] else c for c in df["chainID"].astype(str)]
+                    elif ed["what"] == "resSeq":
+                        df["resSeq"] = [int(v) + ed["value"] for v in df["resSeq"]]
+                    elif ed["what"] == "serial":
+                        df["serial"] = [int(v) + ed["value"] for v in df["serial"]]
+                    df.attrs["format"] = fmt
+            return df
         seed = case.get("emit_seed")
         df = g4.cif_frame(case["rows"], random.Random(seed) if seed is not None else None)
+        if case.get("permute_seed") is not None:
+            # the same rows in another order, keeping their index labels (a sorted / re-assembled selection)
+            fmt = df.attrs.get("format")
+            order = list(range(len(df)))
+            random.Random(case["permute_seed"]).shuffle(order)
+            df = df.iloc[order].copy()
+            df.attrs["format"] = fmt
         if case.get("subset_head") is not None:
             # a row selection of a parsed table (what splitter does per model): categorical columns keep the
             # categories of the rows that were dropped
@@ -77,6 +99,10 @@ def call_site(e):
 
 # ------------------------------------------------------------------------------------------------- python spec (dict based, any size)
 def py_spec(fits, rows, rows2):
+    # whatever is returned satisfies the limits the statement names
+    for r in rows2:
+        if r["serial"] is None or r["resSeq"] is None or r["serial"] > 99999 or len(r["chain"]) > 1 or r["resSeq"] > 9999:
+            return "fail:limits"
     if fits:
         a = [g4.plain(r) for r in rows]
         b = [g4.plain(r) for r in rows2]
@@ -182,6 +208,8 @@ def real(case):
             except Exception as e:  # noqa: BLE001
                 out["readback"] = "raises %s at %s: %s" % (exc_name(e), call_site(e), str(e)[:120])
                 out["readback_field"] = "raises:" + exc_name(e)
+        if not case.get("model", True):
+            out["wire"] = None
     return out
 
 
@@ -221,6 +249,28 @@ def build_cases(ctx):
                 extra.append(dict(r, serial=100000 + rng.randrange(500)))
         cases.append({"source": "gen", "format": "mmCIF", "rows": rows + extra, "subset_head": len(rows),
                       "emit_seed": rng.randrange(1 << 30), "family": "selection-of-overflowing"})
+    # the rows of a table that needs fitting in another order (index labels kept): atoms must keep THAT order
+    for i in range(ctx.pick(30, 400)):
+        kw = {"multichar_chains": True, "big_numbers": rng.random() < 0.5}
+        rows = g4.random_table(rng, **kw)
+        if len(rows) >= 2:
+            cases.append({"source": "gen", "format": "mmCIF", "rows": rows, "emit_seed": rng.randrange(1 << 30),
+                          "permute_seed": rng.randrange(1 << 30), "family": "rename:rows-permuted"})
+    # PDB-derived tables edited afterwards so that they no longer fit
+    for i in range(ctx.pick(30, 400)):
+        rows = [r for r in g4.random_table(rng) if g4.within_limits(r)]
+        if not rows:
+            continue
+        k = rng.randrange(3)
+        if k == 0:
+            ed = {"what": "chain", "old": rng.choice(rows)["chain"], "value": rng.choice(["AA", "A-2", "Bx"])}
+        elif k == 1:
+            ed = {"what": "resSeq", "value": 10000}
+        else:
+            ed = {"what": "serial", "value": 100000}
+        # judged against the statement only until the Lean model of can_write_pdb follows the repaired PDB branch
+        # (model=False: no model/impl comparison for this family)
+        cases.append({"source": "gen", "format": "PDB", "rows": rows, "edit": ed, "family": "pdb-derived-edited", "model": False})
     # hand-made minimal shapes
     base = {"record": "ATOM", "serial": 1, "name": "P", "altLoc": "", "resName": "G", "chain": "AA", "resSeq": 1, "iCode": "",
             "x": 1000, "y": -2000, "z": 3, "occ": 100, "b": 2050, "element": "P", "charge": "", "model": 1}
